@@ -2,7 +2,9 @@ package main
 
 import (
 	"bytes"
+	"errors"
 	"fmt"
+	"io/fs"
 	"strings"
 	"time"
 
@@ -33,6 +35,16 @@ func encodeBytes(bc *ugo.Bytecode) []byte {
 	return d.Bytes()
 }
 
+// badError is an error whose Error method panics.
+type badError struct{}
+
+func (badError) Error() string { var p *int; return fmt.Sprint(*p) }
+
+// objImporter is a host Importable which gives a uGO object as the module value.
+type objImporter struct{ obj ugo.Object }
+
+func (m objImporter) Import(string) (any, error) { return m.obj, nil }
+
 func hostGlobals() ugo.Map {
 	return ugo.Map{
 		"gopanic": &ugo.Function{Name: "gopanic", Value: func(args ...ugo.Object) (ugo.Object, error) {
@@ -40,6 +52,29 @@ func hostGlobals() ugo.Map {
 		}},
 		"gopanicnil": &ugo.Function{Name: "gopanicnil", Value: func(args ...ugo.Object) (ugo.Object, error) {
 			panic(nil)
+		}},
+		// panic values of every kind a Go callback can leave: error values (plain, typed nil whose Error method
+		// cannot be called, one whose Error method panics itself, a uGO error object), a struct, a nil map write
+		"gopanicerr": &ugo.Function{Name: "gopanicerr", Value: func(args ...ugo.Object) (ugo.Object, error) {
+			panic(errors.New("host error value"))
+		}},
+		"gopanictnil": &ugo.Function{Name: "gopanictnil", Value: func(args ...ugo.Object) (ugo.Object, error) {
+			var perr *fs.PathError
+			panic(perr)
+		}},
+		"gopanicbad": &ugo.Function{Name: "gopanicbad", Value: func(args ...ugo.Object) (ugo.Object, error) {
+			panic(badError{})
+		}},
+		"gopanicobj": &ugo.Function{Name: "gopanicobj", Value: func(args ...ugo.Object) (ugo.Object, error) {
+			panic(ugo.ErrType.NewError("as panic value"))
+		}},
+		"gopanicstruct": &ugo.Function{Name: "gopanicstruct", Value: func(args ...ugo.Object) (ugo.Object, error) {
+			panic(struct{ X, Y int }{1, 2})
+		}},
+		"gopanicmap": &ugo.Function{Name: "gopanicmap", Value: func(args ...ugo.Object) (ugo.Object, error) {
+			var m map[string]int
+			m["k"] = 1
+			return ugo.Undefined, nil
 		}},
 		"goindex": &ugo.Function{Name: "goindex", Value: func(args ...ugo.Object) (ugo.Object, error) {
 			var a []int
@@ -108,6 +143,12 @@ func runHistory(args []*Sexp) *Sexp {
 		for i, a := range args[4:] {
 			mm.AddSourceModule(fmt.Sprintf("m%d", i+1), atomBytes(a))
 		}
+		// modules of a host Importable whose value is not a map: every container kind
+		mm.Add("cbytes", objImporter{ugo.Bytes{1, 2, 3}})
+		mm.Add("carr", objImporter{ugo.Array{ugo.Int(1), ugo.Array{ugo.Int(2)}}})
+		mm.Add("csm", objImporter{&ugo.SyncMap{Value: ugo.Map{"k": ugo.Int(1), "inner": ugo.Map{}}}})
+		mm.Add("cmap", objImporter{ugo.Map{"x": ugo.Int(0), "b": ugo.Bytes{7}}})
+		mm.Add("cerr", objImporter{&ugo.Error{Name: "modErr", Message: "m"}})
 		return mm
 	}
 	var obsArgs []ugo.Object
